@@ -302,6 +302,12 @@ def gen_project(rng):
         # their own and inherit the group's
         resources.append({"id": "g1", "shift": True, "leave": None,
                           "members": ["m%d" % (j + 1) for j in range(rng.randint(1, 2))]})
+    if shift and rng.random() < 0.4:
+        # a group with hours of its OWN (always written inline) whose members work in the shift (by reference or inline): a
+        # member's own calendar, however it is spelled, takes precedence over what it inherits from the group
+        gh = [rng.choice(DAYSPECS), rng.choice(RANGES)]
+        resources.append({"id": "g2", "shift": False, "leave": None, "ghours": gh, "member_shift": True,
+                          "members": ["n%d" % (j + 1) for j in range(rng.randint(1, 2))]})
     # task tree
     ntasks = rng.randint(2, 7)
     count = [0]
@@ -509,10 +515,19 @@ def render_project(proj, opt):
                     emit(l, "  ")
             else:
                 emit(f'workinghours {S(sh["id"])}', "  ")
+        if r.get("ghours"):
+            days, rgs = r["ghours"]
+            emit("workinghours " + ", ".join(days) + " " + ", ".join(f"{a} - {b}" for a, b in rgs), "  ")
         if r["leave"]:
             emit(f'leaves annual {r["leave"][0]} - {r["leave"][1]}', "  ")
         for m in r.get("members") or []:
             emit(f'resource {R(m)} "Member" {{', "  ")
+            if r.get("member_shift") and sh:
+                if opt["inline_shift"]:
+                    for l in hours_lines():
+                        emit(l, "    ")
+                else:
+                    emit(f'workinghours {S(sh["id"])}', "    ")
             emit("}", "  ")
         emit("}")
     dep_of, prec_of = {}, {}
